@@ -235,7 +235,7 @@ func (x *Exec) indexAddr(fr *Frame, t *ssa.IndexAddr, st *State, reach Term) Val
 		key, srt := x.elemKey(bt.Elem())
 		x.heapBase(key, srt)
 		x.oblige("panic", "index", implies(reach, and(le("0", idx), lt(idx, app("s_len", base.S)))), t.Pos(), "slice index in range")
-		l := &Loc{Kind: lElem, Key: key, Region: app("s_reg", base.S), Index: app("sidx", base.S, idx), RootT: et, T: et}
+		l := &Loc{Kind: lElem, Key: key, Region: app("s_reg", base.S), Index: app("sidx", app("s_off", base.S), idx), RootT: et, T: et}
 		return Val{T: t.Type(), L: l}
 	case *types.Pointer:
 		at, ok := under(bt.Elem()).(*types.Array)
